@@ -34,7 +34,8 @@ func obProps(o *Oblig) []string {
 		}
 		return []string{"C03", "C04", "C05"}
 	case "COPY":
-		return []string{"C17"}
+		// the freshness that FRAME proofs of callers assume from Copy() is established here
+		return []string{"C17", "C03", "C04", "C05"}
 	case "NONDET":
 		return append([]string{"C03"}, o.tags...)
 	case "PRE", "LOOP":
@@ -205,7 +206,7 @@ func (r *checkRun) collect() (obs []*Oblig, encOf map[*Oblig]*Enc, fnSeen map[st
 			// appended to in place, a shared schema) corrupts what it or a later query returns: the SAFE and
 			// FRAME obligations of the functions defined in the files a property is anchored in are part of
 			// that property's check
-			anchored := (o.Family == "SAFE" || o.Family == "FRAME" || (o.Family == "PRE" && len(o.tags) == 0)) && r.anchorFns[o.Fn]
+			anchored := (o.Family == "SAFE" || o.Family == "FRAME" || o.Family == "COPY" || (o.Family == "PRE" && len(o.tags) == 0)) && r.anchorFns[o.Fn]
 			if !hasProp(o, r.prop) && !anchored {
 				continue
 			}
@@ -505,6 +506,9 @@ func (r *checkRun) decide(noEvidence bool, evidenceOut string) int {
 		lostClaimed := len(missingByFn[key]) - newProvedByFn[key] // claimed obligations without a proved successor
 		excess := len(fails) - missingUnprovedByFn[key]           // failing successors not explained by old unproved ones
 		nrep := 0
+		if os.Getenv("GOVC_DEBUG") != "" {
+			fmt.Fprintf(os.Stderr, "DEBUG group %s missingClaimed=%d newProved=%d fails=%d missingUnproved=%d\n", key, len(missingByFn[key]), newProvedByFn[key], len(fails), missingUnprovedByFn[key])
+		}
 		if lostClaimed > 0 && excess > 0 {
 			nrep = lostClaimed
 			if excess < nrep {
@@ -543,6 +547,14 @@ func (r *checkRun) decide(noEvidence bool, evidenceOut string) int {
 	unboundFn := map[string]bool{}
 	for fn := range poisoned {
 		unboundFn[fn] = true
+	}
+	// an automatic invariant candidate that could not be decided in time was dropped: what rests on it fails
+	// for no semantic reason
+	for _, fr := range r.res {
+		if fr.enc != nil && len(fr.enc.houdiniUndecided) > 0 {
+			unboundFn[shortName(fr.fn)] = true
+			undecided = append(undecided, fmt.Sprintf("solver time-out on an automatic invariant of %s (%s): nothing decided for this function", shortName(fr.fn), fr.enc.houdiniUndecided[0]))
+		}
 	}
 	// whatever the property: a declared auxiliary invariant of the function that is not discharged, or an
 	// obligation of the function that became vacuous, breaks every proof in that function
@@ -658,7 +670,7 @@ func (r *checkRun) decide(noEvidence bool, evidenceOut string) int {
 		} else if rt := r.tryReplay(v, replayCache); rt != nil {
 			v.test = rt
 			v.confirmed = rt.Failed
-			if !rt.Failed && strings.Contains(rt.Output, "ok  ") {
+			if !rt.Failed && strings.Contains(rt.Output, "ok  ") && v.ob.Family == "COPY" {
 				// the executable form of the refuted clauses ran on the real code, on receivers with every
 				// field populated, and held: the refutation is an artefact of an incomplete proof (typically a
 				// copy loop rewritten in a shape the invariant synthesis does not know)
@@ -1027,6 +1039,13 @@ func contractHasTag(ct *Contract, prop string, requiresOnly bool) bool {
 			return true
 		}
 	}
+	for _, tags := range ct.LoopComplete {
+		for _, t := range tags {
+			if t == prop {
+				return true
+			}
+		}
+	}
 	for _, sc := range ct.Asserts {
 		if has([]Clause{sc.Clause}) {
 			return true
@@ -1052,6 +1071,13 @@ func relevantFuncs(w *World, spec *Specs, prop string) []*ssa.Function {
 		}
 		if contractHasTag(spec.contractFor(f), prop, false) {
 			rel = true
+		}
+		for _, tags := range spec.loopComplete[shortName(f)] {
+			for _, t := range tags {
+				if t == prop {
+					rel = true
+				}
+			}
 		}
 		for _, t := range spec.siteTags[shortName(f)] {
 			if t == prop {
